@@ -81,6 +81,8 @@ def fold_camel(hooks: HooksModule):
             return next(iter(vals))
         return g
     it = microeval.Interp(name=hooks.rel)
+    for k_, v_ in microeval.std_modules(it).items():
+        it.globals.setdefault(k_, v_)
     cache: dict[str, str] = {}
 
     def f(name: str) -> str:
